@@ -574,3 +574,53 @@ pub fn selftest(ep: &Epoch) -> Result<(), String> {
     }
     Ok(())
 }
+
+
+// ---------------------------------------------------------------------------
+// Curve arithmetic for one alteration class of C09: a signature with a point of the cofactor subgroup added
+// ---------------------------------------------------------------------------
+
+/// Returns `sig + T`, where `T = [r]P` for a random curve point `P` (r = order of G1): `T` is on the curve
+/// but outside the prime-order subgroup, and pairs trivially with everything. A verifier that skips the
+/// subgroup check accepts the altered bytes. `None` if the input does not deserialize.
+pub fn add_cofactor_point(sig: &[u8; SIG_LEN], seed: u64) -> Option<[u8; SIG_LEN]> {
+    // group order r, little-endian
+    const R_LE: [u8; 32] = [
+        0x01, 0x00, 0x00, 0x00, 0xff, 0xff, 0xff, 0xff, 0xfe, 0x5b, 0xfe, 0xff, 0x02, 0xa4, 0xbd, 0x53, 0x05, 0xd8, 0xa1, 0x09, 0x08, 0xd8, 0x39, 0x33, 0x48, 0x7d, 0x9d, 0x29, 0x53, 0xa7, 0xed, 0x73,
+    ];
+    unsafe {
+        let mut s_aff = blst::blst_p1_affine::default();
+        if blst::blst_p1_deserialize(&mut s_aff, sig.as_ptr()) != blst::BLST_ERROR::BLST_SUCCESS {
+            return None;
+        }
+        let mut ctr = seed;
+        loop {
+            // a compressed encoding with a pseudo-random x coordinate below the field modulus
+            let mut c = [0u8; 48];
+            for (i, b) in c.iter_mut().enumerate() {
+                ctr = ctr.wrapping_mul(6364136223846793005).wrapping_add(1442695040888963407);
+                *b = (ctr >> 33) as u8 ^ i as u8;
+            }
+            c[0] = 0x80 | (c[0] & 0x0f);
+            let mut p_aff = blst::blst_p1_affine::default();
+            if blst::blst_p1_uncompress(&mut p_aff, c.as_ptr()) != blst::BLST_ERROR::BLST_SUCCESS {
+                continue;
+            }
+            let mut p = blst::blst_p1::default();
+            blst::blst_p1_from_affine(&mut p, &p_aff);
+            let mut t = blst::blst_p1::default();
+            blst::blst_p1_mult(&mut t, &p, R_LE.as_ptr(), 255);
+            if blst::blst_p1_is_inf(&t) {
+                continue;
+            }
+            let mut sum = blst::blst_p1::default();
+            blst::blst_p1_add_or_double_affine(&mut sum, &t, &s_aff);
+            let mut out = [0u8; SIG_LEN];
+            blst::blst_p1_serialize(out.as_mut_ptr(), &sum);
+            if out == *sig {
+                continue;
+            }
+            return Some(out);
+        }
+    }
+}
